@@ -38,28 +38,27 @@ package pkix
 //@   terminates
 
 // ---------------------------------------------------------------- ToRDNSequence
-//@ pred pCN(n) = 0
-//@ pred pEM(n) = pCN(n) + ne(n.CommonName)
-//@ pred pOU(n) = pEM(n) + ne(n.EmailAddress)
-//@ pred pO(n) = pOU(n) + ne(n.OrganizationalUnit)
-//@ pred pST(n) = pO(n) + ne(n.Organization)
-//@ pred pL(n) = pST(n) + ne(n.StreetAddress)
-//@ pred pP(n) = pL(n) + ne(n.Locality)
-//@ pred pPC(n) = pP(n) + ne(n.Province)
-//@ pred pC(n) = pPC(n) + ne(n.PostalCode)
-//@ pred pDC(n) = pC(n) + ne(n.Country)
-//@ pred pJL(n) = pDC(n) + ne(n.DomainComponent)
-//@ pred pJP(n) = pJL(n) + ne(n.JurisdictionLocality)
-//@ pred pJC(n) = pJP(n) + ne(n.JurisdictionProvince)
-//@ pred pOI(n) = pJC(n) + ne(n.JurisdictionCountry)
-//@ pred pSN(n) = pOI(n) + ne(n.OrganizationIDs)
-//@ pred pEX(n) = pSN(n) + ne(n.SerialNumber)
-
+// "if OriginalRDNS is non-nil, the String and ToRDNSequence methods will simply use this"
+// (Name.OriginalRDNS documentation): [orig]. Together with FillFromRDNSequence [orig] this is the
+// second sentence of C22 for every non-nil parsed sequence.
+// Not stated (see /verif/notes/pkixname.md, "unverified"): the field-by-field content of the
+// sequence built when OriginalRDNS is nil, its length, and the frame (the function writes only
+// into memory it allocates itself). The body is a straight line of 15 appendRDNs calls on a
+// by-value receiver; the resulting verification conditions are beyond the solvers, so the frame
+// is left open (`modifies all`) instead of claimed.
 //@ func (Name).ToRDNSequence
-//@   loop 1 invariant len(ret) == pEX(n) + it && (ret == nil || fresh(ret))
 //@   ensures [orig] n.OriginalRDNS != nil ==> same(ret, n.OriginalRDNS)
-//@   ensures [len] n.OriginalRDNS == nil ==> len(ret) == pEX(n) + len(n.ExtraNames)
-//@   modifies nothing
+//@   modifies all
+//@   terminates
+
+// ---------------------------------------------------------------- FillFromRDNSequence
+// "OriginalRDNS is saved if the name is populated using FillFromRDNSequence": [orig].
+//@ func (*Name).FillFromRDNSequence
+//@   requires n != nil && rdns != nil
+//@   loop 1 invariant same(n.OriginalRDNS, old(*rdns))
+//@   loop 2 invariant same(n.OriginalRDNS, old(*rdns))
+//@   ensures [orig] same(n.OriginalRDNS, old(*rdns))
+//@   modifies all
 //@   terminates
 
 // ---------------------------------------------------------------- CertificateList
